@@ -39,8 +39,10 @@ def hash_array(array: np.ndarray) -> int:
         # between different views of same array
         h.update(bytes(f"{array.dtype}{array.shape}{array.strides}", "utf-8"))
         return h.intdigest()
-    # Evaluate built-in hash function on *copy* of data as a byte sequence
-    return hash(array.tobytes())
+    # Evaluate built-in hash function on *copy* of data as a byte sequence. Adding zero
+    # maps any negative zeros to positive zeros so that arrays which compare equal
+    # (-0.0 == 0.0) also hash equal
+    return hash((array + 0).tobytes())
 
 
 LOG_2: float = log(2.0)
